@@ -54,6 +54,7 @@ type GenOpts struct {
 	AllowChange   bool // validator/threshold changes
 	AllowAgg      bool // aggregate commits
 	AllowStandby  bool
+	AllowRotate   bool // validator updates may switch generator keys (also updates that do nothing else)
 	MaxValidators int
 }
 
@@ -127,6 +128,24 @@ func (n *Node) DrawSpec(t *rapid.T, o GenOpts, flags map[string]bool) Spec {
 			s.Script.Next.Standby = nil
 		}
 		flags["param-change"] = true
+		if o.AllowRotate {
+			switch rapid.IntRange(0, 3).Draw(t, "rotate") {
+			case 0:
+				// a validator update that only rotates generator keys: same validators in the same round-robin order, same
+				// weights and thresholds
+				if rot := n.rotationOnly(t); rot != nil {
+					s.Script.Next = rot
+					flags["generator-key-rotation-only"] = true
+				}
+			case 1:
+				for _, ix := range append(append([]int{}, s.Script.Next.Idx...), s.Script.Next.Standby...) {
+					if rapid.IntRange(0, 2).Draw(t, "altGen") == 0 {
+						s.Script.Next.AltGen = append(s.Script.Next.AltGen, ix)
+					}
+				}
+				flags["generator-key-rotation"] = true
+			}
+		}
 	}
 	if o.AllowAgg {
 		_, pc, cert := n.Heights()
@@ -198,6 +217,54 @@ func (n *Node) BuildSiblingAt(salt uint32, slot int, allowSameGenerator bool) (*
 	if !same {
 		sib.Header.MaxHeightGenerated = n.LastGeneratedHeight(k.Addr)
 	}
-	Resign(sib, k)
+	Resign(sib, n.SignerFor(tip.Header.Height, k))
 	return sib, true
+}
+
+// rotationOnly builds a validator update for the next block that keeps validators, order, weights and thresholds and toggles
+// the generator key of one or two validators.
+func (n *Node) rotationOnly(t *rapid.T) *NextParams {
+	height := n.Tip().Header.Height + 1
+	cur, err := n.CurrentParams(height)
+	if err != nil {
+		return nil
+	}
+	gens, err := n.Exec.GetGeneratorKeys(n.Store(), height)
+	if err != nil || len(gens) == 0 {
+		return nil
+	}
+	weight := map[int]uint64{}
+	for i, ix := range cur.Idx {
+		weight[ix] = cur.Weights[i]
+	}
+	next := &NextParams{Precommit: cur.Precommit, Cert: cur.Cert}
+	standbySeen := false
+	for _, g := range gens {
+		k := KeyByAddr(g.Address())
+		if k == nil {
+			return nil
+		}
+		if w := weight[k.Index]; w > 0 {
+			if standbySeen {
+				return nil // an order ValidatorsOf cannot reproduce
+			}
+			next.Idx = append(next.Idx, k.Index)
+			next.Weights = append(next.Weights, w)
+		} else {
+			standbySeen = true
+			next.Standby = append(next.Standby, k.Index)
+		}
+	}
+	alt := n.AltGenAt(height) // keys in force at this height, and afterwards if this block changed nothing
+	all := append(append([]int{}, next.Idx...), next.Standby...)
+	toggle := map[int]bool{all[int(rapid.Uint32().Draw(t, "rotWho")%uint32(len(all)))]: true}
+	if rapid.Bool().Draw(t, "rotTwo") {
+		toggle[all[int(rapid.Uint32().Draw(t, "rotWho2")%uint32(len(all)))]] = true
+	}
+	for _, ix := range all {
+		if alt[ix] != toggle[ix] {
+			next.AltGen = append(next.AltGen, ix)
+		}
+	}
+	return next
 }
